@@ -325,6 +325,53 @@ impl Pred {
     }
 }
 
+/// an `ArrayReader` over an abstract tape of `total` rows (one Int32 column `id` = row index):
+/// exactly the abstraction the Lean reader-loop model uses
+struct TapeReader {
+    total: usize,
+    pos: usize,
+    buf: Vec<i32>,
+    dt: DataType,
+}
+impl TapeReader {
+    fn new(total: usize) -> Self {
+        let dt = DataType::Struct(arrow_schema::Fields::from(vec![Field::new("id", DataType::Int32, false)]));
+        TapeReader { total, pos: 0, buf: vec![], dt }
+    }
+}
+impl parquet::arrow::array_reader::ArrayReader for TapeReader {
+    fn as_any(&self) -> &dyn std::any::Any {
+        self
+    }
+    fn get_data_type(&self) -> &DataType {
+        &self.dt
+    }
+    fn read_records(&mut self, n: usize) -> parquet::errors::Result<usize> {
+        let k = n.min(self.total - self.pos);
+        self.buf.extend((self.pos..self.pos + k).map(|x| x as i32));
+        self.pos += k;
+        Ok(k)
+    }
+    fn consume_batch(&mut self) -> parquet::errors::Result<ArrayRef> {
+        let a = Int32Array::from(std::mem::take(&mut self.buf));
+        Ok(Arc::new(arrow_array::StructArray::from(vec![(
+            Arc::new(Field::new("id", DataType::Int32, false)),
+            Arc::new(a) as ArrayRef,
+        )])))
+    }
+    fn skip_records(&mut self, n: usize) -> parquet::errors::Result<usize> {
+        let k = n.min(self.total - self.pos);
+        self.pos += k;
+        Ok(k)
+    }
+    fn get_def_levels(&self) -> Option<&[i16]> {
+        None
+    }
+    fn get_rep_levels(&self) -> Option<&[i16]> {
+        None
+    }
+}
+
 /// in-memory `AsyncFileReader`
 struct MemReader {
     bytes: Bytes,
@@ -466,17 +513,42 @@ fn run_read(t: &[&str]) -> ReadOut {
             let md = ArrowReaderMetadata::load(&file.bytes, options).map_err(|e| format!("open {e}"))?;
             let b = ParquetPushDecoderBuilder::new_with_metadata(md);
             let mut dec = configure(b, t).build().map_err(|e| format!("build {e}"))?;
-            let mut out = vec![];
+            let mut out: Vec<RecordBatch> = vec![];
+            // `peek_next_row_group` (a second entry point to the frontier logic) must name the
+            // row group the next reader's rows come from (checked when no predicate can empty it)
+            let mut fresh = true;
+            let mut peeked: Option<Option<usize>> = None;
             loop {
+                if fresh {
+                    peeked = Some(dec.peek_next_row_group().map_err(|e| format!("peek {e}"))?);
+                    fresh = false;
+                }
                 match dec.try_next_reader().map_err(|e| format!("read {e}"))? {
                     DecodeResult::NeedsData(ranges) => {
                         let bufs = ranges.iter().map(|r| file.bytes.slice(r.start as usize..r.end as usize)).collect();
                         dec.push_ranges(ranges, bufs).map_err(|e| format!("push {e}"))?;
                     }
                     DecodeResult::Data(reader) => {
+                        let start = out.len();
                         for b in reader {
                             out.push(b.map_err(|e| format!("read {e}"))?);
                         }
+                        if t[7] == "-" {
+                            if let Some(p) = peeked.take() {
+                                let rg_of = |id: usize| {
+                                    let mut at = 0;
+                                    sizes.iter().position(|n| { at += n; id < at })
+                                };
+                                for b in &out[start..] {
+                                    for v in b.column(0).as_primitive::<Int32Type>().values().iter() {
+                                        if rg_of(*v as usize) != p {
+                                            return Err(format!("peek-mismatch: peeked {:?}, row {} is in {:?}", p, v, rg_of(*v as usize)));
+                                        }
+                                    }
+                                }
+                            }
+                        }
+                        fresh = true;
                         if dec.is_at_row_group_boundary() {
                             dec = dec.into_builder().map_err(|e| format!("rebuild {e}"))?.build().map_err(|e| format!("build {e}"))?;
                         }
@@ -531,10 +603,19 @@ fn run_read(t: &[&str]) -> ReadOut {
         for i in 0..b.num_rows() {
             let id = idc.value(i) as usize;
             ids.push(id);
-            for (k, name) in proj.iter().enumerate() {
-                let c = ["id", "a", "s", "l"].iter().position(|x| x == name).unwrap();
-                let got = render(b.column(k), i);
-                if file.full.get(id).map(|r| &r[c]) != Some(&got) {
+            for name in proj.iter() {
+                let Some(col) = b.column_by_name(name) else {
+                    oracle = Some(format!("column {} missing from the batch", name));
+                    continue;
+                };
+                let got = render(col, i);
+                let want = if *name == "rn" {
+                    Some(id.to_string())
+                } else {
+                    let c = COLS.iter().position(|x| x == name).unwrap();
+                    file.full.get(id).map(|r| r[c].clone())
+                };
+                if want.as_ref() != Some(&got) {
                     oracle = Some(format!("row id {} column {} = {} differs from the full read", id, name, got));
                 }
             }
@@ -607,9 +688,87 @@ fn run_case(line: &str) -> (String, Option<String>) {
             show_list(&idxs)
         }),
         "runs" => guarded(|| {
-            let m = BooleanBuffer::from(parse_bits(&t[2][2..]));
+            let sel = parse_operand(t[2]);
+            let m = sel.as_mask().expect("mask operand").clone();
             let v: Vec<RowSelector> = MaskRunIter::new(&m).collect();
             show_sels(v.iter())
+        }),
+        "default" => guarded(|| show_rs(&RowSelection::default())),
+        "plan" => guarded(|| {
+            // C06 plan <operand|-> <policy s|m|aN|d> <bs>: the public ReadPlanBuilder / ReadPlan /
+            // RowSelectionCursor / MaskCursor surface
+            use parquet::arrow::arrow_reader::{ReadPlanBuilder, RowSelectionCursor};
+            let sel = if t[2] == "-" { None } else { Some(parse_operand(t[2])) };
+            let bs = us(t[4]);
+            let mut b = ReadPlanBuilder::new(bs).with_selection(sel);
+            if let Some(p) = policy_of(t[3]) {
+                b = b.with_row_selection_policy(p);
+            }
+            let head = format!(
+                "any={} n={}",
+                b.selects_any() as u8,
+                b.num_rows_selected().map(|n| n.to_string()).unwrap_or("-".into())
+            );
+            let explicit = t[3] == "s" || t[3] == "m" || t[2] == "-";
+            let mut plan = b.build();
+            if plan.batch_size() != bs {
+                return "BAD-BATCH-SIZE".into();
+            }
+            if !explicit {
+                return head;
+            }
+            match plan.row_selection_cursor_mut() {
+                RowSelectionCursor::All => format!("{} all", head),
+                RowSelectionCursor::Selectors(c) => format!("{} sel empty={}", head, c.is_empty() as u8),
+                RowSelectionCursor::Mask(c) => {
+                    let mut chunks = vec![];
+                    let mut guard = 0;
+                    while let Some(ch) = c.next_mask_chunk(bs) {
+                        let bits = c.mask_values_for(&ch).map(|a| show_bits(&a.values().iter().collect::<Vec<_>>())).unwrap_or("ERR".into());
+                        chunks.push(format!("{}:{}:{}:{}:{}", ch.initial_skip, ch.chunk_rows, ch.selected_rows, ch.mask_start, bits));
+                        guard += 1;
+                        if guard > 10000 {
+                            return "LOOP".into();
+                        }
+                    }
+                    format!("{} mask empty={} {}", head, c.is_empty() as u8, if chunks.is_empty() { "-".to_string() } else { chunks.join(",") })
+                }
+            }
+        }),
+        "wpred" => guarded(|| {
+            // C06 wpred <operand|-> <policy> <bs> <total> <pred over tape rows: 0/1/n> <limit|-> <total_rows>
+            use parquet::arrow::arrow_reader::{PredicateOptions, ReadPlanBuilder};
+            let sel = if t[2] == "-" { None } else { Some(parse_operand(t[2])) };
+            let (bs, total) = (us(t[4]), us(t[5]));
+            let pv: Vec<char> = if t[6] == "e" { vec![] } else { t[6].chars().collect() };
+            let mut b = ReadPlanBuilder::new(bs).with_selection(sel);
+            if let Some(p) = policy_of(t[3]) {
+                b = b.with_row_selection_policy(p);
+            }
+            let mut pred = ArrowPredicateFn::new(ProjectionMask::all(), move |batch: RecordBatch| {
+                let ids = batch.column(0).as_primitive::<Int32Type>();
+                let v: Vec<Option<bool>> = ids
+                    .values()
+                    .iter()
+                    .map(|i| match pv.get(*i as usize) {
+                        Some('1') => Some(true),
+                        Some('n') => None,
+                        _ => Some(false),
+                    })
+                    .collect();
+                Ok::<_, ArrowError>(BooleanArray::from(v))
+            });
+            let mut opts = PredicateOptions::new(Box::new(TapeReader::new(total)), &mut pred);
+            if t[7] != "-" {
+                opts = opts.with_limit(us(t[7]), us(t[8]));
+            }
+            match b.with_predicate_options(opts) {
+                Err(_) => "ERR:read".to_string(),
+                Ok(b) => match b.selection() {
+                    None => "none".to_string(),
+                    Some(s) => show_rs(s),
+                },
+            }
         }),
         "prog" => {
             let mut o: Option<String> = None;
@@ -737,13 +896,21 @@ fn gen_operand(rng: &mut Rng, total: usize, marks: &[usize]) -> (String, Vec<(us
         1 => vec![(total, true)],
         _ => gen_runs(rng, total, marks, true),
     };
-    if rng.chance(2, 5) { (runs_to_m(&runs), runs) } else { (runs_to_r(&runs), runs) }
+    if rng.chance(2, 5) { (with_bit_offset(rng, runs_to_m(&runs)), runs) } else { (runs_to_r(&runs), runs) }
+}
+/// half of the mask operands live at a non-zero (mostly unaligned) bit offset of a larger buffer
+fn with_bit_offset(rng: &mut Rng, m: String) -> String {
+    if rng.bool() {
+        m
+    } else {
+        format!("M{}:{}", *rng.pick(&[1usize, 3, 7, 8, 9, 13, 63, 64, 65]), &m[2..])
+    }
 }
 fn sel_count(runs: &[(usize, bool)]) -> usize {
     runs.iter().filter(|r| !r.1).map(|r| r.0).sum()
 }
 fn small_total(rng: &mut Rng) -> usize {
-    *rng.pick(&[0usize, 1, 2, 5, 8, 13, 20, 33, 64, 65, 100])
+    *rng.pick(&[0usize, 1, 2, 5, 8, 13, 20, 33, 63, 64, 65, 100, 127, 128, 129, 200])
 }
 
 /// an operation history on one selection; observers are placed before and after the mutating ops
@@ -756,7 +923,7 @@ fn gen_prog(rng: &mut Rng) -> (String, String) {
         _ => gen_runs(rng, total, &[], false),
     };
     let mask_backed = rng.chance(3, 4);
-    let start = if mask_backed { runs_to_m(&runs) } else { runs_to_r(&runs) };
+    let start = if mask_backed { with_bit_offset(rng, runs_to_m(&runs)) } else { runs_to_r(&runs) };
     let mut bits: Vec<bool> = runs.iter().flat_map(|(n, s)| std::iter::repeat(!*s).take(*n)).collect();
     let mut ops: Vec<String> = vec![];
     let mut tags = std::collections::BTreeSet::new();
@@ -835,9 +1002,53 @@ fn gen_prog(rng: &mut Rng) -> (String, String) {
     (line, t)
 }
 
+/// the public ReadPlanBuilder surface: `plan` (cursor + mask chunks) and `wpred`
+/// (`with_predicate_options` over a tape ArrayReader, with and without a match limit)
+fn gen_plan(rng: &mut Rng) -> (String, String) {
+    let total = small_total(rng);
+    let pol = match rng.below(5) {
+        0 => "d".to_string(),
+        1 | 2 => "s".to_string(),
+        3 => "m".to_string(),
+        _ => format!("a{}", *rng.pick(&[0usize, 1, 2, 4, 32, 1000])),
+    };
+    let bs = *rng.pick(&[1usize, 2, 3, 7, 8, 64, 65, 1000]);
+    let (sel, runs) = if rng.chance(1, 6) { ("-".to_string(), vec![]) } else { gen_operand(rng, total, &[]) };
+    if rng.chance(1, 3) {
+        let nt = if runs.len() > 1 { "nt" } else { "" };
+        return (format!("C06 plan {} {} {}", sel, pol, bs), format!("op:plan pol:{} {}", &pol[0..1], nt));
+    }
+    // tape as long as the selection (sometimes longer); predicate with nulls
+    let tape = if rng.chance(1, 5) { total + rng.usize(5) } else { total };
+    let style = rng.below(4);
+    let pv: String = (0..tape)
+        .map(|i| match style {
+            0 => '1',
+            1 => if rng.chance(1, 8) { '1' } else { '0' },
+            2 => *rng.pick(&['0', '1', 'n']),
+            _ => if i % 3 == 0 { '1' } else { '0' },
+        })
+        .collect();
+    let pv = if pv.is_empty() { "e".to_string() } else { pv };
+    let matches = pv.chars().filter(|c| *c == '1').count();
+    let (lim, ltag) = match rng.below(5) {
+        0 | 1 => ("-".to_string(), "none"),
+        2 => ((*rng.pick(&[0usize, 1, matches, matches + 1, matches.saturating_sub(1)])).to_string(), "edge"),
+        _ => (rng.usize(matches + 2).to_string(), "some"),
+    };
+    let nt = if runs.len() > 1 || sel == "-" { "nt" } else { "" };
+    (
+        format!("C06 wpred {} {} {} {} {} {} {}", sel, pol, bs, tape, pv, lim, tape),
+        format!("op:wpred pol:{} wlim:{} wsel:{} {}", &pol[0..1], ltag, if sel == "-" { "none" } else if sel.starts_with('M') { "M" } else { "R" }, nt),
+    )
+}
+
 fn gen_algebra(rng: &mut Rng) -> (String, String) {
     if rng.chance(1, 5) {
         return gen_prog(rng);
+    }
+    if rng.chance(1, 6) {
+        return gen_plan(rng);
     }
     let total = small_total(rng);
     let kind = |o: &str| if o.starts_with('M') { "M" } else { "R" };
@@ -1007,8 +1218,142 @@ const LAYOUTS: &[(&str, &str)] = &[
     ("33", "5d2"),
 ];
 
+/// more than 1024 rows per row group and per page run: crosses the readers' internal
+/// 1024-value batches (levels, dictionary indices, skip loops)
+const BIG_LAYOUT: (&str, &str) = ("1500,1200", "300d");
+
+/// a complete `read` case line (predicate bitmasks computed from the predicate specs)
+#[allow(clippy::too_many_arguments)]
+fn mk_read(mode: &str, sizes_s: &str, pg: &str, idx: usize, groups: &[usize], sel: &str, pol: &str, preds: &[&str], off: &str, lim: &str, bs: usize, proj: &str) -> String {
+    let sizes = parse_list::<usize>(sizes_s);
+    let mut concat: Vec<usize> = vec![];
+    for &g in groups {
+        let base: usize = sizes[..g].iter().sum();
+        concat.extend(base..base + sizes[g]);
+    }
+    let pmasks: Vec<String> = preds
+        .iter()
+        .map(|p| {
+            let p = parse_pred(p);
+            let bits = concat.iter().map(|&i| p.holds(i)).collect::<Vec<_>>();
+            if bits.is_empty() { "e".to_string() } else { show_bits(&bits) }
+        })
+        .collect();
+    format!(
+        "C06 read {} {} {} {} {} {} {} {} {} {} {} {} {}",
+        mode,
+        sizes_s,
+        pg,
+        idx,
+        show_list(groups),
+        sel,
+        pol,
+        if preds.is_empty() { "-".to_string() } else { preds.join(";") },
+        if pmasks.is_empty() { "-".to_string() } else { pmasks.join(";") },
+        off,
+        lim,
+        bs,
+        proj
+    )
+}
+
+/// the deterministic block of boundary cases emitted in every run (independent of the seed)
+fn dense_block() -> Vec<(String, String)> {
+    let mut out: Vec<(String, String)> = vec![];
+    let bits = |n: usize, f: &dyn Fn(usize) -> bool| -> String { show_bits(&(0..n).map(f).collect::<Vec<_>>()) };
+    out.push(("C06 default".into(), "op:default dense".into()));
+    // ---- word / byte boundary sizes, boundary bit positions, bit offsets, both backings
+    for &n in &[0usize, 1, 7, 8, 9, 63, 64, 65, 127, 128, 129] {
+        let pats: Vec<(&str, String)> = vec![
+            ("ones", bits(n, &|_| true)),
+            ("zeros", bits(n, &|_| false)),
+            ("first", bits(n, &|i| i == 0)),
+            ("last", bits(n, &|i| i + 1 == n)),
+            ("w63", bits(n, &|i| i == 63)),
+            ("w64", bits(n, &|i| i == 64)),
+            ("alt", bits(n, &|i| i % 2 == 1)),
+            ("ends", bits(n, &|i| i == 0 || i + 1 == n)),
+        ];
+        for (pname, b) in &pats {
+            let pop = b.chars().filter(|c| *c == '1').count();
+            for k in [0usize, 1, 7, 63, 64] {
+                let m = if k == 0 { format!("M:{}", b) } else { format!("M{}:{}", k, b) };
+                let tag = format!("dense size:{} pat:{} moff:{}", n, pname, k);
+                out.push((format!("C06 counts {}", m), format!("op:counts {}", tag)));
+                out.push((format!("C06 runs {}", m), format!("op:runs {}", tag)));
+                for sp in [0usize, 1, pop, 63, 64, 65, n.saturating_sub(1), n, n + 1] {
+                    out.push((format!("C06 prog {} r;l{};r;y;k", m, sp), format!("op:prog split:warm {}", tag)));
+                    out.push((format!("C06 prog {} h{};r;y", m, sp), format!("op:prog split:cold {}", tag)));
+                }
+                // and_then fast paths and the scatter loop, right / wrong operand length
+                let second = [bits(pop, &|_| true), bits(pop, &|_| false), bits(pop, &|i| i % 2 == 0), bits(pop + 1, &|_| true)];
+                for o in &second {
+                    out.push((format!("C06 andthen {} M:{}", m, o), format!("op:andthen {}", tag)));
+                    out.push((format!("C06 andthen {} M3:{}", m, o), format!("op:andthen {}", tag)));
+                }
+                // set ops with equal / unequal lengths, other operand at another offset
+                for (on, ob) in [(n, bits(n, &|i| i % 3 == 0)), (n + 1, bits(n + 1, &|i| i % 3 == 0)), (n / 2, bits(n / 2, &|_| true))] {
+                    let _ = on;
+                    out.push((format!("C06 inter {} M5:{}", m, ob), format!("op:inter {}", tag)));
+                    out.push((format!("C06 union {} M:{}", m, ob), format!("op:union {}", tag)));
+                    out.push((format!("C06 eq {} M9:{}", m, ob), format!("op:eq {}", tag)));
+                }
+                out.push((format!("C06 eq {} M2:{}", m, b), format!("op:eq {}", tag)));
+                for bs in [1usize, 64, 65] {
+                    out.push((format!("C06 plan {} m {}", m, bs), format!("op:plan {}", tag)));
+                }
+                out.push((format!("C06 plan {} s 8", m), format!("op:plan {}", tag)));
+                // predicate with a match limit at every boundary of the match count
+                let pv = bits(n, &|i| i % 2 == 0).replace('0', "n");
+                let pv = if pv.is_empty() { "e".to_string() } else { pv };
+                for lim in ["-", "0", "1", "2", "1000"] {
+                    out.push((format!("C06 wpred {} m 3 {} {} {} {}", m, n, pv, lim, n), format!("op:wpred {}", tag)));
+                }
+            }
+        }
+    }
+    // ---- end to end: boundary selections on every layout, every entry point
+    let mut layouts: Vec<(&str, &str)> = LAYOUTS.to_vec();
+    layouts.push(BIG_LAYOUT);
+    for (li, (sizes_s, pg)) in layouts.iter().enumerate() {
+        let sizes = parse_list::<usize>(sizes_s);
+        let groups: Vec<usize> = (0..sizes.len()).collect();
+        let total: usize = sizes.iter().sum();
+        let page = page_rows_of(pg);
+        let rg1 = sizes[0];
+        let sels: Vec<(&str, String)> = vec![
+            ("none", "-".to_string()),
+            ("first-row", format!("M:{}", bits(total, &|i| i == 0))),
+            ("last-row", format!("M3:{}", bits(total, &|i| i + 1 == total))),
+            ("rg-edge", format!("M:{}", bits(total, &|i| i + 1 == rg1 || i == rg1))),
+            ("page-firsts", format!("M1:{}", bits(total, &|i| i % page.max(1) == 0))),
+            ("sparse-tail", format!("M:{}", bits(total, &|i| i + 2 >= total || i == 1))),
+            ("all-but-one", format!("R:k{},s1,k{}", total / 2, total - total / 2 - 1)),
+            ("w1024", format!("R:s{},k3,s{}", 1022.min(total.saturating_sub(4)), total.saturating_sub(1022.min(total.saturating_sub(4)) + 3))),
+        ];
+        for (sname, sel) in &sels {
+            for mode in ["sync", "push", "async", "pushr", "push.c0"] {
+                for (off, lim) in [("-", "-"), ("1", "1"), ("0", "2"), ("2", "-")] {
+                    for pol in ["s", "m"] {
+                        // keep the big layout's share small
+                        if li == layouts.len() - 1 && (pol == "s" && off != "-") {
+                            continue;
+                        }
+                        let idx = if mode == "sync" { 0 } else { 2 };
+                        let preds: Vec<&str> = if mode.contains(".c") || *sname == "none" { vec!["a%2=0"] } else { vec![] };
+                        let bs = if pol == "s" { 3 } else { 1000 };
+                        let line = mk_read(mode, sizes_s, pg, idx, &groups, sel, pol, &preds, off, lim, bs, "id,a,st,rn");
+                        out.push((line, format!("op:read:{} dense dsel:{} layout:{} nt", mode.split('.').next().unwrap(), sname, li)));
+                    }
+                }
+            }
+        }
+    }
+    out
+}
+
 fn gen_read(rng: &mut Rng) -> (String, String) {
-    let (sizes_s, pg) = *rng.pick(LAYOUTS);
+    let (sizes_s, pg) = if rng.chance(1, 60) { BIG_LAYOUT } else { *rng.pick(LAYOUTS) };
     let sizes = parse_list::<usize>(sizes_s);
     let idx = rng.below(3);
     // row-group choice: all / ordered subset / permuted subset
@@ -1106,12 +1451,16 @@ fn gen_read(rng: &mut Rng) -> (String, String) {
     let lim = opt(rng, total / 2 + 1);
     let bs = *rng.pick(&[1usize, 2, 3, 5, 7, 8, 16, 64, 1000]);
     let mut proj = vec!["id"];
-    for c in ["a", "s", "l"] {
-        if rng.chance(2, 5) {
+    for c in ["a", "s", "l", "st", "rn"] {
+        if rng.chance(1, 3) {
             proj.push(c);
         }
     }
-    let mode = *rng.pick(&["sync", "sync", "push", "push", "async"]);
+    let mut mode = (*rng.pick(&["sync", "sync", "push", "push", "async", "pushr"])).to_string();
+    if mode != "sync" && np > 0 && rng.chance(1, 3) {
+        // predicate cache disabled / tiny
+        mode = format!("{}.c{}", mode, *rng.pick(&[0usize, 0, 64]));
+    }
     let line = format!(
         "C06 read {} {} {} {} {} {} {} {} {} {} {} {} {}",
         mode,
@@ -1130,9 +1479,13 @@ fn gen_read(rng: &mut Rng) -> (String, String) {
     );
     let _ = file_rows;
     let nt = sel != "-" || np > 0 || off != "-" || lim != "-";
+    let mode_tag = mode.split('.').next().unwrap().to_string();
+    let cache_tag = if mode.contains(".c") { "pcache:limited " } else { "" };
     let tags = format!(
-        "op:read:{} groups:{} sel:{}:{} pol:{} preds:{} off:{} lim:{} idx:{} bs:{} proj:{} {}{}",
-        mode,
+        "{}{}op:read:{} groups:{} sel:{}:{} pol:{} preds:{} off:{} lim:{} idx:{} bs:{} proj:{} {}{}",
+        cache_tag,
+        if proj.contains(&"rn") { "proj:rn " } else { "" },
+        mode_tag,
         gtag,
         stag,
         sel_kind,
@@ -1143,7 +1496,7 @@ fn gen_read(rng: &mut Rng) -> (String, String) {
         idx,
         if bs >= total.max(1) { "ge-total" } else { "lt-total" },
         proj.len(),
-        if (off != "-" || lim != "-") && groups.len() > 1 { format!("budget:{}-multi-rg ", mode) } else { String::new() },
+        if (off != "-" || lim != "-") && groups.len() > 1 { format!("budget:{}-multi-rg ", mode_tag) } else { String::new() },
         if nt { "nt" } else { "" }
     );
     (line, tags)
@@ -1178,6 +1531,9 @@ fn main() {
             record(&mut sink, line, "replay");
         }
     } else {
+        for (line, tags) in dense_block() {
+            record(&mut sink, line, &tags);
+        }
         let mut rng = Rng::new(args.seed ^ 0xC06);
         let n_alg = n_cases(&args, 8000, 300000);
         for _ in 0..n_alg {
